@@ -96,7 +96,7 @@ Definition upd_peer (l : list speer) (i : N) (f : speer -> speer) : list speer :
    session number (count of handshakes so far), TUN reads feed the multiset. *)
 Definition spec_event (tbl : list entry) (s : sstate) (ev : event) : sstate :=
   match ev with
-  | TunBatch pkts =>
+  | TunBatch pkts | TunBatchFault pkts _ _ =>
       {| sp_mtu := sp_mtu s; sp_peers := sp_peers s; sp_nsess := sp_nsess s;
          sp_avail := sp_avail s ++ flat_map (owners tbl (N.of_nat (length (sp_peers s)))) pkts |}
   | MtuUpdate m =>
